@@ -68,7 +68,7 @@ def td_us(td: datetime.timedelta) -> int:
 
 def canon(v: Any, depth: int = 0) -> Any:
     """Structural canonical form: [class-name, payload]; JSON serialisable."""
-    if depth > 40:
+    if depth > 200:
         return ["deep"]
     if v is None:
         return ["NoneType", None]
